@@ -13,8 +13,10 @@ VARIABLES l, dev,
           rc,     \* requests cancelled through their own context (Cancel), as opposed to their session's
           kA,     \* [Req -> SUBSET Block] keys of r shared with a same-session sibling cancelled while r was open
           kF,     \* [Req -> SUBSET Block] keys of r shared with a same-session sibling cancelled before r was issued
-          hasAt   \* [Req -> [Node -> SUBSET Block]] placement when r was issued (who could answer DONT_HAVE)
-aux == <<rc, kA, kF, hasAt>>
+          hasAt,  \* [Req -> [Node -> SUBSET Block]] placement when r was issued (who could answer DONT_HAVE)
+          kG      \* [Req -> SUBSET Block] keys of r that a request of ANOTHER session of the node was served with,
+                  \* gave up or finished with while r was open (or ended shortly before r was issued)
+aux == <<rc, kA, kF, hasAt, kG>>
 tvars == <<vars, l, dev, aux>>
 ASSUME TLCSet(1, 0)
 
@@ -31,7 +33,7 @@ Blank == /\ adding = [n \in Node |-> [b \in Block |-> 0]]
          /\ fresh = [n \in Node |-> FALSE]
 
 TInit == /\ l = 1 /\ dev = {} /\ rc = {} /\ kA = [r \in Req |-> {}] /\ kF = [r \in Req |-> {}]
-         /\ hasAt = [r \in Req |-> [n \in Node |-> {}]]
+         /\ hasAt = [r \in Req |-> [n \in Node |-> {}]] /\ kG = [r \in Req |-> {}]
          /\ adj = [n \in Node |-> {}] /\ has = [n \in Node |-> {}]
          /\ Blank
 
@@ -49,7 +51,11 @@ TReset == /\ IsEvent("Reset")
           /\ wl' = [n \in Node |-> {}]
           /\ fresh' = [n \in Node |-> FALSE]
           /\ rc' = {} /\ kA' = [r \in Req |-> {}] /\ kF' = [r \in Req |-> {}]
-          /\ hasAt' = [r \in Req |-> [n \in Node |-> {}]] /\ UNCHANGED dev
+          /\ hasAt' = [r \in Req |-> [n \in Node |-> {}]] /\ kG' = [r \in Req |-> {}] /\ UNCHANGED dev
+
+OtherSession(r, c) == r # c /\ rq[r].node = rq[c].node /\ (rq[r].s = 0 \/ rq[r].s # rq[c].s)
+\* request c touched keys ks: open requests of other sessions on the node that still ask for them
+Cross(c, ks) == [r \in Req |-> IF Open(r) /\ OtherSession(r, c) THEN kG[r] \cup (ks \cap KeySet(r)) ELSE kG[r]]
 
 TOpenSession == IsEvent("OpenSession") /\ Ev.s \in Sess /\ Ev.node \in Node
                 /\ OpenSession(Ev.s, Ev.node) /\ UNCHANGED <<dev, aux>>
@@ -59,18 +65,27 @@ TRequest == /\ IsEvent("Request") /\ Ev.r \in Req /\ Ev.node \in Node /\ Ev.s \i
             /\ kF' = [kF EXCEPT ![Ev.r] = IF Ev.s = 0 THEN {} ELSE
                         ToSet(Ev.keys) \cap UNION {KeySet(c) \ Got(c) : c \in {c \in rc : rq[c].s = Ev.s}}]
             /\ hasAt' = [hasAt EXCEPT ![Ev.r] = has]
+            /\ ToSet(Ev.near) \subseteq Req
+            /\ kG' = [kG EXCEPT ![Ev.r] = ToSet(Ev.keys) \cap UNION {KeySet(c) : c \in
+                        {c \in ToSet(Ev.near) : rq[c].st # "none" /\ rq[c].node = Ev.node /\ (rq[c].canc \/ ~Open(c))
+                                                 /\ (Ev.s = 0 \/ rq[c].s # Ev.s)}}]
             /\ UNCHANGED <<dev, rc, kA>>
 TDeliver == /\ IsEvent("Deliver") /\ Ev.r \in Req /\ Ev.b \in Block /\ Ev.from \in Node \cup {0}
             /\ Ev.ok = TRUE                                  \* bytes are the block's bytes (projection)
-            /\ Deliver(Ev.r, Ev.b, Ev.from) /\ UNCHANGED <<dev, aux>>
+            /\ Deliver(Ev.r, Ev.b, Ev.from) /\ kG' = Cross(Ev.r, {Ev.b}) /\ UNCHANGED <<dev, rc, kA, kF, hasAt>>
 TCancel == /\ IsEvent("Cancel") /\ Ev.r \in Req /\ Cancel(Ev.r) /\ rc' = rc \cup {Ev.r}
            /\ kA' = [r \in Req |-> IF r # Ev.r /\ Open(r) /\ rq[Ev.r].s # 0 /\ rq[r].s = rq[Ev.r].s
                                     THEN kA[r] \cup (Awaited(Ev.r) \cap Awaited(r)) ELSE kA[r]]
-           /\ UNCHANGED <<dev, kF, hasAt>>
-TCancelSession == IsEvent("CancelSession") /\ Ev.s \in Sess /\ CancelSession(Ev.s) /\ UNCHANGED <<dev, aux>>
+           /\ kG' = Cross(Ev.r, KeySet(Ev.r)) /\ UNCHANGED <<dev, kF, hasAt>>
+TCancelSession == /\ IsEvent("CancelSession") /\ Ev.s \in Sess /\ CancelSession(Ev.s)
+                  /\ LET gone == {c \in Req : Open(c) /\ rq[c].s = Ev.s} IN
+                     kG' = [r \in Req |-> IF Open(r) /\ rq[r].s # Ev.s
+                                           THEN kG[r] \cup (KeySet(r) \cap UNION {KeySet(c) : c \in {c \in gone : rq[c].node = rq[r].node}})
+                                           ELSE kG[r]]
+                  /\ UNCHANGED <<dev, rc, kA, kF, hasAt>>
 TClose == /\ IsEvent("Close") /\ Ev.r \in Req
           /\ Ev.err = "" \/ rq[Ev.r].canc                    \* an error only after cancellation
-          /\ Close(Ev.r) /\ UNCHANGED <<dev, aux>>
+          /\ Close(Ev.r) /\ kG' = Cross(Ev.r, KeySet(Ev.r)) /\ UNCHANGED <<dev, rc, kA, kF, hasAt>>
 TAddBlock == IsEvent("AddBlock") /\ Ev.node \in Node /\ Ev.b \in Block /\ AddBlock(Ev.node, Ev.b) /\ UNCHANGED <<dev, aux>>
 TAddDone == IsEvent("AddDone") /\ Ev.node \in Node /\ Ev.b \in Block /\ AddDone(Ev.node, Ev.b) /\ UNCHANGED <<dev, aux>>
 TSnapshot == /\ IsEvent("Snapshot") /\ Ev.node \in Node
@@ -90,6 +105,11 @@ TTimeout == IsEvent("Timeout") /\ Ev.r \in Req /\ Timeout(Ev.r) /\ UNCHANGED <<d
         sessionWantSender goroutine; a call issued on the session right after the sibling's cancellation has
         its fresh interest removed -> blocks for it are discarded as unwanted (liveness), and the wants the
         sender still emits are never cancelled (leak).
+   Dev_C37_CrossSessionCancelWipe  SessionManager.cancelWants is not atomic with the interest manager: a request that
+        ends (cancelled, completed, or served with a key) has "nobody else wants k" computed first and CANCEL sent /
+        the want-list entries wiped later; a request of another session on the same node that registered and sent
+        its want for k in between loses the entry (and the peer's ledger entry, and the DONT_HAVE timeout), its
+        sessionWantSender keeps waiting for the peer it sent the want-block to -> never served (liveness).
    Dev_C37_LocalBlockWantLeak    sessionWantSender.onChange uses update.from # "" to recognise an update; blocks
         announced locally (NotifyNewBlocks, from = "") are ignored, the sender keeps the want and sends it to
         peers after the session withdrew its interest -> the key stays on the want-list for ever.
@@ -150,6 +170,7 @@ TSnapshotDev == /\ Devs # {}
 
 TimeoutExcuse(r) == IF "Dev_C37_SharedWantCancelled" \in Devs /\ kA[r] \cap Awaited(r) # {} THEN "Dev_C37_SharedWantCancelled"
                ELSE IF "Dev_C37_RewantAfterCancel" \in Devs /\ kF[r] \cap Awaited(r) # {} THEN "Dev_C37_RewantAfterCancel"
+               ELSE IF "Dev_C37_CrossSessionCancelWipe" \in Devs /\ kG[r] \cap Awaited(r) # {} THEN "Dev_C37_CrossSessionCancelWipe"
                ELSE "none"
 TTimeoutDev == /\ Devs # {}
                /\ IsEvent("Timeout") /\ Ev.r \in Req
